@@ -259,7 +259,11 @@ impl AssociatedFile for AnnotationDataSet {
 
     /// Set the filename for stand-off file specified using @include (if any)
     fn set_filename(&mut self, filename: &str) -> &mut Self {
-        self.filename = Some(filename.into());
+        if self.filename.as_ref().map(|s| s.as_str()) != Some(filename) {
+            self.filename = Some(filename.into());
+            //the set has to be written to the new file (like a resource whose filename changes)
+            self.mark_changed();
+        }
         self
     }
 }
